@@ -378,11 +378,6 @@ def execute(vc):
               and res.sensor_info_list == [{"sensor_id": s, "boresight": f"bore{s}", "time_last_tasked": f"time{s}"} for s in (10, 11, 12)])
 
 
-# the pair-level obligations above take the mask / visibility-order predicates "by contract": re-checked in this property's own run
-from pyvc.harness import share as _share  # noqa: E402
-from contracts import C14 as _C14  # noqa: E402,F401
-_share("C14", "masks", "C02")
-_share("C14", "los", "C02")
 
 
 FV = "resonaate.sensors.field_of_view:"
@@ -455,3 +450,10 @@ def config_plumbing(vc):
     outs = [fac(_NS(type=t, field_of_view="CFG-FOV")) for t in (SensorLabel.OPTICAL, SensorLabel.RADAR, SensorLabel.ADV_RADAR)]
     vc.ensure("O-C02-config.factory", outs == ["Optical-sensor", "Radar-sensor", "AdvRadar-sensor"] and [b[0] for b in built] == ["Optical", "Radar", "AdvRadar"]
               and all(b[2] == ("FOV-OF", "CFG-FOV") for b in built))
+
+
+# (at the very end of the module: C14 shares this module's harnesses in turn) the pair-level obligations above take the mask / visibility-order predicates "by contract": re-checked in this property's own run
+from pyvc.harness import share as _share  # noqa: E402
+from contracts import C14 as _C14  # noqa: E402,F401
+_share("C14", "masks", "C02")
+_share("C14", "los", "C02")
